@@ -229,6 +229,30 @@ func OnlyTimeoutBad(err error) bool {
 	return false
 }
 
+var bufPool = sync.Pool{New: func() any { b := make([]byte, 64); return &b }}
+
+func PoolGood(r io.Reader) ([]byte, error) {
+	bp := bufPool.Get().(*[]byte)
+	defer bufPool.Put(bp)
+	n, err := r.Read(*bp)
+	if err != nil {
+		return nil, err
+	}
+	out := make([]byte, n)
+	copy(out, (*bp)[:n])
+	return out, nil
+}
+
+func PoolBad(r io.Reader) ([]byte, error) {
+	bp := bufPool.Get().(*[]byte)
+	defer bufPool.Put(bp)
+	n, err := r.Read(*bp)
+	if err != nil {
+		return nil, err
+	}
+	return (*bp)[:n], nil
+}
+
 func AtLeastGood(r io.Reader, n int) ([]byte, error) {
 	buf := make([]byte, n)
 	_, err := io.ReadAtLeast(r, buf, len(buf))
